@@ -186,13 +186,17 @@ def sock_scripts(work, maxq):
     # one fixed script on top of the toured ones: fourteen MSG_DONTWAIT datagrams to a receiver nobody reads - the
     # queue (net.unix.max_dgram_qlen) fills up and the send flag decides between -EAGAIN and blocking for ever
     scripts.append({"run": len(scripts), "steps": [["dsend"]] * 14, "model": [None] * 14})
+    # and one for accept on a TCP listener (loopback), every combination of SOCK_CLOEXEC / SOCK_NONBLOCK, three rounds
+    # (the caller's address length cycles through too short / ample): the clients connect directly
+    isteps = [s for _ in range(3) for combo in range(4) for s in (["iconnect"], ["iaccept", combo])]
+    scripts.append({"run": len(scripts), "steps": isteps, "model": [None] * len(isteps)})
     return res, g.nedges, scripts
 
 
-def run_driver(bindir, batches_path, root, entries, flags, timeout=900, mode="run", prefix=()):
+def run_driver(bindir, batches_path, root, entries, flags, timeout=900, mode="run", prefix=(), extra=()):
     shutil.rmtree(root, ignore_errors=True)
     os.makedirs(root)
-    p = core.run_cmd(list(prefix) + [os.path.join(bindir, "uring_ops"), mode, batches_path, root, str(entries), str(flags)], timeout=timeout, check=False)
+    p = core.run_cmd(list(prefix) + [os.path.join(bindir, "uring_ops"), mode, batches_path, root, str(entries), str(flags)] + [str(x) for x in extra], timeout=timeout, check=False)
     recs = [json.loads(l) for l in p.stdout.splitlines() if l.startswith("{") and l.endswith("}")]
     if p.returncode != 0:
         # a crash of the driver process is data if the run was rejected before (decided by the caller)
@@ -403,6 +407,10 @@ def run(tier):
         plan.append(("enter_fails_ring_disabled", 8, R_DISABLED, retry_batches))
     for err in (("EINTR", "EAGAIN", "EBUSY") if shutil.which("strace") else ()):
         plan.append(("enter_fails_" + err, 8, 0, retry_batches, ("strace", "-f", "-o", "/dev/null", "-e", "trace=io_uring_enter", "-e", "inject=io_uring_enter:error=%s:when=3+5" % err)))
+    # world A's directory open AS descriptor 0 (stdin closed first) and as descriptor 2: every path-taking entry carries
+    # that number as its dir_fd (descriptor 1 is the driver's output channel)
+    for low in (0, 2):
+        plan.append(("dirfd_is_%d" % low, 8, 0, [dict(b=i, reset=(i == 0), ops=b) for i, b in enumerate(walks[8][-1][:80])], (), (low,)))
     if not quick:       # every flag combination on the main ring size as well
         for fl in ops_flags:
             for w in walks[8][:1]:
@@ -412,10 +420,10 @@ def run(tier):
     allrecs, meta = [], []
     aborted = {}
     for item in plan:
-        (tag, entries, flags, batches), prefix = item[:4], (item[4] if len(item) > 4 else ())
+        (tag, entries, flags, batches), prefix, extra = item[:4], (item[4] if len(item) > 4 else ()), (item[5] if len(item) > 5 else ())
         bpath = os.path.join(chk.work, "batches_%s.ndjson" % tag)
         core.write_ndjson(bpath, batches)
-        recs = run_driver(bindir, bpath, root, entries, flags, prefix=prefix)
+        recs = run_driver(bindir, bpath, root, entries, flags, prefix=prefix, extra=extra)
         os.unlink(bpath)
         if recs and recs[0]["ev"] == "setup_failed":
             raise core.ToolError("set-up of an accepted flag combination failed: %s" % recs[0])
@@ -461,7 +469,9 @@ def run(tier):
                 nontrivial.add((r["subs"][0]["op"], json.dumps(r["step"]), got if got < 0 else 0))
             if r["ev"] == "aborted":
                 aborted["sock"] = r["why"]
-        sock_stats["scripts_cut_short"] += sum(1 for k, sc in enumerate(scripts) if len(per_run.get(k, [])) < len(sc["steps"]))
+        sock_stats["scripts_cut_short"] += sum(1 for k, sc in enumerate(scripts) if len(per_run.get(k, [])) < sum(1 for st in sc["steps"] if st[0] != "iconnect"))
+        if any(r["ev"] == "no_loopback" for r in recs):
+            sock_stats["inet_accept"] = "not exercised: no TCP loopback in this sandbox"
     os.unlink(spath)
     # every flag / opcode constant of the library against the kernel's uapi header
     uapi = uapi_constants()
